@@ -77,15 +77,18 @@ CLAIMS = {
     'C14': ('abstract interpretation of handleAtCommand over symbolic configured actions (action mapping, exit sequence '
             'sent in order, streaming/no-match effect free) and of the motion handlers with exclusion disabled '
             '(no exclusion, tracked position equal to the firmware reference in both positioning modes); the retraction / '
-            'E-register typestate machine with the @-command actions in its environment (nothing owed is lost through a disable)',
+            'E-register typestate machine with the @-command actions in its environment (nothing owed is lost through a disable); '
+            'the matching decision depends only on whether the configured pattern matched',
             'parameter pattern matching is a user regular expression (opaque); exit sequence itself is C03'),
     'C15': ('abstract interpretation of handleScriptHook for matching / other / symbolic script names x active x '
             'excluding: contributes the exit sequence as prefix exactly when required, closes the episode, otherwise no effect; the '
-            'prefix is a fresh list (configured scripts neither handed out nor mutated)',
+            'prefix is a fresh list (configured scripts neither handed out nor mutated); the print-activity flag it is conditioned on follows '
+            'the event-transition table (C11.R1 / R3 as premises)',
             'ordering of script hook versus print-done event is OctoPrint behaviour'),
     'C07': ('every synthesised command found on any abstract path (exit, retraction, firmware retract) and the merged '
             'deferred command: skeleton shape, distinct letters, and a per-word proof that the formatter cannot produce '
-            'exponent notation (fixed-point spec, integer, or helper whose every return is guarded by a test for an exponent marker)',
+            'exponent notation (fixed-point spec, integer, or helper whose every return is guarded by a test for an exponent marker); '
+            'language inclusion (regex automata) of every command text the hooks can pass in the parameter-extraction regex of the firmware retract / recover commands',
             'finiteness of the values is not decided'),
     'C08': ('conversion laws of AxisPosition as polynomial identities (round trips in both modes, firmware map, G92 law, '
             'homing), native arguments of the region tests, sibling agreement of G20/G21/G90/G91 over all axes and the feed '
